@@ -11,4 +11,9 @@ for d in sys.argv[1:]:
         if f.crate in mirinline.WORKSPACE and f.dk in ('Fn', 'AssocFn'):
             out[mirinline.ident(f)] = {'id': list(mirinline.ident(f)), 'private': f.vis != 'Public' and not f.no_mangle, 'inputs': f.inputs, 'output': f.output}
 open(os.path.join(os.path.dirname(__file__), '..', 'sa', 'known_fns.json'), 'w').write('[\n' + ',\n'.join(json.dumps(out[k]) for k in sorted(out)) + '\n]\n')
-print(len(out), 'functions')
+adts = set()
+for d in sys.argv[1:]:
+    p = Program(d, inline=False)
+    adts |= {k for k in p.adts if k.split('::')[0] in mirinline.WORKSPACE}
+json.dump(sorted(adts), open(os.path.join(os.path.dirname(__file__), '..', 'sa', 'known_adts.json'), 'w'), indent=0)
+print(len(out), 'functions', len(adts), 'ADTs')
